@@ -24,6 +24,9 @@ TIMES = 'history/times.py'; HFILES = 'history/files.py'; TNETS = 'server/tnetstr
 POLL = 'server/enip/poll.py'; DEFAULTS = 'server/enip/defaults.py'; NETWORK = 'server/network.py'
 
 VARIANTS = [
+    V( 'route-retired-after-release', UCMM, "except Exception:\n # Retire the failed route while we still hold it: once released, a\n # session queued for it would find it still registered, send on it\n # and receive the late response to our request.\n with self.route_lock:\n if self.route_conn.get( target ) is route:\n self.route_conn.pop( target )\n route.close()\n raise", "except Exception:\n                                        raise", fires=[ 'P-ROUTE' ] ),
+    V( 'phase-request-code-behind-reply-bit', LOGIX, "assert offremains == 0 or (\n attribute.parser.tag_type < STRING.tag_type\n and offremains % attribute.parser.struct_calcsize == 0 )", "if data.service == self.RD_FRG_REQ:\n                        assert offremains == 0 or (\n                            attribute.parser.tag_type < STRING.tag_type\n                            and offremains % attribute.parser.struct_calcsize == 0 )", fires=[ 'S-PHASE' ] ),
+    V( 'phase-reply-code-behind-reply-bit', LOGIX, "assert offremains == 0 or (\n attribute.parser.tag_type < STRING.tag_type\n and offremains % attribute.parser.struct_calcsize == 0 )", "if data.service in ( self.RD_FRG_RPY, self.RD_TAG_RPY ):\n                        assert offremains == 0 or (\n                            attribute.parser.tag_type < STRING.tag_type\n                            and offremains % attribute.parser.struct_calcsize == 0 )", silent=[ 'S-PHASE' ] ),
     V( 'assert-parenthesised-with-message', LOGIX, "assert offremains == 0 or (\n attribute.parser.tag_type < STRING.tag_type\n and offremains % attribute.parser.struct_calcsize == 0 )", "assert ( offremains == 0 or (\n                        attribute.parser.tag_type < STRING.tag_type\n                        and offremains % attribute.parser.struct_calcsize == 0 ), 'sub-element offset' )", fires=[ 'W-ASSERT' ] ),
     V( 'assert-parenthesised-condition-only', LOGIX, "assert offremains == 0 or (\n attribute.parser.tag_type < STRING.tag_type\n and offremains % attribute.parser.struct_calcsize == 0 )", "assert ( offremains == 0 or (\n                        attribute.parser.tag_type < STRING.tag_type\n                        and offremains % attribute.parser.struct_calcsize == 0 )), 'sub-element offset'", silent=[ 'W-ASSERT' ] ),
     V( 'snapshot-set-attribute-per-element', DEVICE, "val = [ struct.unpack( fmt, buf[i:i+siz] )[0]\n for i in range( 0, len(buf), siz ) ]\n att[:] = val", "for i in range( len( att )):\n                        att[i]	= struct.unpack_from( fmt, buf, i * siz )[0]", fires=[ 'R-SNAPSHOT' ] ),
@@ -316,7 +319,7 @@ VARIANTS = [
     V( 'routetext-try-asserts-list-only', DEVICE, "assert isinstance( route_path, (type(None),bool,int,list) ), \\\n \"route_path invalid; must resolve to null/0/false or list, not: %r\" % ( route_path, )", "assert isinstance( route_path, list ), \\\n                \"route_path invalid; must resolve to list, not: %r\" % ( route_path, )", fires=[ 'T-ROUTETEXT' ], why='defect AN' ),
     V( 'pathstop-equivalent', DEVICE, "or not attribute #   or no Attribute desired (must return None)", "or attribute in ( False, None, 0 ) or not attribute", silent=[ 'D-PATHSTOP' ] ),
     V( 'keypass-normalised', MAIN, "def __setitem__( self, key, value ):\n super( Attribute_print, self ).__setitem__( key, value )", "def __setitem__( self, key, value ):\n            if isinstance( key, slice ):\n                key	= slice( *key.indices( len( self )))\n            super( Attribute_print, self ).__setitem__( key, value )", fires=[ 'K-KEYPASS' ] ),
-    V( 'route-checks-outside-try', UCMM, "rsp,ela = client.await_response( conn, timeout=timeout )\n assert rsp, \\", "rsp,ela	= client.await_response( conn, timeout=timeout )\n                                    assert True, \\", fires=[ 'P-ROUTE' ] ),
+    V( 'route-checks-outside-try', UCMM, "rsp,ela = client.await_response( conn, timeout=timeout )\n assert rsp, \\", "rsp,ela	= client.await_response( conn, timeout=timeout )\n                                        assert True, \\", fires=[ 'P-ROUTE' ] ),
     V( 'send-buffered', MAIN, "try:\n conn.send( rpy )\n except socket.error as exc:\n log.detail( \"Session ended (client abandoned): %s\", exc )\n stats['eof'] = True\n if data.response.enip.status:", "if source.peek() is None:\n                            try:\n                                conn.send( rpy )\n                            except socket.error as exc:\n                                log.detail( \"Session ended (client abandoned): %s\", exc )\n                                stats['eof'] = True\n                        if data.response.enip.status:", fires=[ 'P-ONE' ] ),
     V( 'client-data-every-call', CLIENT, "if self.engine is None:\n self.data = dotdict( peer=addr )\n self.engine = self.frame.run( source=self.source, data=self.data )", "self.data		= dotdict( peer=addr )\n            if self.engine is None:\n                self.engine	= self.frame.run( source=self.source, data=self.data )", fires=[ 'P-ACT' ] ),
     V( 'write-elementwise', LOGIX, "attribute[beg:end] = data[context].data\n data.status = 0x00", "for i,v in zip( range( beg, end ), data[context].data ):\n                    attribute[i]	= v\n                data.status		= 0x00", fires=[ 'R-SNAPSHOT' ] ),
@@ -496,7 +499,7 @@ VARIANTS = [
     V( 'hfiles-listdir-empty-dirname', HFILES, "os.listdir( self.dirs or '.' )", "os.listdir( self.dirs )", fires=[ 'H-FILES' ] ),
     V( 'sockaddr-little-endian-text', PARSER, "source=sin_addr_octets, data=ip_address_data )) as engine:", "source=struct.pack( '<I', struct.unpack( '>I', sin_addr_octets )[0] ), data=ip_address_data )) as engine:", fires=[ 'L-SOCKADDR' ] ),
     V( 'type-setter-skips-conversion', DEVICE, "self.default = type(self.default)( v )", "self.default		= v if isinstance( v, type( self.default )) else type(self.default)( v )", fires=[ 'D-TYPE' ], why='seed C03 round 6' ),
-    V( 'echo-envelope-replaced', UCMM, "unc_send= rsp.enip.CIP.send_data.CPF.item[1].unconnected_send", "data.enip= rsp.enip\n                                unc_send= data.enip.CIP.send_data.CPF.item[1].unconnected_send", fires=[ 'D-ECHO' ], why='seed C06 round 6' ),
+    V( 'echo-envelope-replaced', UCMM, "unc_send= rsp.enip.CIP.send_data.CPF.item[1].unconnected_send", "data.enip= rsp.enip\n                                        unc_send= data.enip.CIP.send_data.CPF.item[1].unconnected_send", fires=[ 'D-ECHO' ], why='seed C06 round 6' ),
     V( 'udp-peer-not-remembered', MAIN, "addr = frm\n stats,_ = stats_for( addr )", "stats,_	= stats_for( frm )", fires=[ 'E-CONTAIN' ], why='seed C08 round 6' ),
     V( 'print-raw-slice-bound', MAIN, "key.indices( len( self ))[1]-1 if isinstance( key, slice ) else key,\n value ))\n\n # Iterate", "key.stop-1 if isinstance( key, slice ) else key,\n                value ))\n\n    # Iterate", fires=[ 'W-PRINT' ], why='seed C05 round 6' ),
     V( 'gate-status-and-count', PARSER, "predicate=lambda path=None, data=None, **kwds: data[path+'_ext.size'],", "predicate=lambda path=None, data=None, **kwds: data[path] and data[path+'_ext.size'],", fires=[ 'G-GATE' ], why='seed C10 round 6' ),
